@@ -15,7 +15,7 @@ def is_bookkeeping(sql):
 
 
 def check(events, statements, outcome, lock_before, lock_after,
-          saved=None):
+          saved=None, purge=False):
     """events: [(seq, name, payload)], statements: [(seq, sql, params,
     fault_marker)], outcome: 'ok' | 'failed'.
     Returns list of (clause, detail)."""
@@ -107,6 +107,9 @@ def check(events, statements, outcome, lock_before, lock_after,
     orphan = [q for q in orphan if not q.upper().startswith('PRAGMA')
               and not q.upper().startswith('CREATE INDEX')
               and not q.upper().startswith('CREATE UNIQUE INDEX')]
+    if purge:
+        # purging a stale app has no signal of its own
+        orphan = [q for q in orphan if not q.upper().startswith('DROP TABLE')]
     if orphan:
         out.append(('sql-outside-any-signal-pair', {'sql': orphan[:3]}))
     if lock_after != lock_before:
